@@ -3,11 +3,11 @@ from harness import casgen, common, refio, sessions
 from harness.props import c01
 
 PROP = "C05"
-MODULES = ["CassisModel.Properties.C05"]
+MODULES = ["CassisModel.Properties.C05", "CassisModel.Properties.C01"]
 THEOREMS = [
     "Cassis.Xmi.lookupFs_perm",
     "Cassis.Xmi.resolveIds_perm",
-    "Cassis.Xmi.pass1_fss_perm",
+    "Cassis.Xmi.pass1_sofas_perm",
     "Cassis.Xmi.resolveIds_showIds",
     "Cassis.Json.toposort_sound",
     "Cassis.Json.lookup_perm",
